@@ -573,6 +573,9 @@ class ViewParameter(AbstractParameter, ParameterListener):
             and self.indices.__eq__(other.indices)
         )
 
+    def parameters(self) -> list[AbstractParameter]:
+        return self.parameter.parameters()
+
     @property
     def tensor(self) -> Tensor:
         return self.parameter.tensor[..., self.indices]
@@ -744,6 +747,9 @@ class CatParameter(AbstractParameter, ParameterListener):
             == len(list(self._parameter_container.params()))
             and self._dim.__eq__(other._dim)
         )
+
+    def parameters(self) -> list[AbstractParameter]:
+        return self._parameter_container.parameters()
 
     def update(self):
         if self._need_update:
